@@ -47,7 +47,13 @@ ASSUMPTIONS = [
 VOCAB = ["a", "b", "c", "ab", "abc", "x", "core", ".well-known", "sensors", "temp", "ä", "日本",
          "A", "a.b", "a-b_c~", "0"]
 WK = [".well-known", "core"]
-ORACLE_UPA = {0: [".well-known", "core"], 1: [".well-known", "rd"], 2: [".well-known", "edhoc"]}
+# draft-ietf-core-uri-path-abbrev (the oracle's own copy of the registry)
+ORACLE_UPA = {0: [".well-known", "core"], 1: [".well-known", "rd"], 2: [".well-known", "edhoc"],
+              301: [".well-known", "est", "crts"], 302: [".well-known", "est", "sen"],
+              303: [".well-known", "est", "sren"], 304: [".well-known", "est", "skg"],
+              305: [".well-known", "est", "skc"], 306: [".well-known", "est", "att"],
+              401: [".well-known", "brski", "es"], 402: [".well-known", "brski", "rv"],
+              403: [".well-known", "brski", "vs"]}
 
 
 # --------------------------------------------------------------------------- encodings
@@ -473,6 +479,8 @@ def oracle(case, obs):
                                 "upa-conflict")
                     continue
                 if upa not in ORACLE_UPA:
+                    if o["kind"] != "402":
+                        return (f"unknown Uri-Path-Abbrev {upa} answered {o['kind']}", "upa-unknown")
                     continue
                 path = ORACLE_UPA[upa]
             if o["kind"] == "402":
@@ -606,7 +614,7 @@ class Builder:
         self.rng = rng
         self.ops = []
         self.next_id = 1
-        self.shape = {"res": set(), "sub": {}}     # sub: key -> shape | None (leaf)
+        self.shape = {"res": {}, "sub": {}}     # sub: key -> shape | None (leaf)
         self.case = {"wkc": None, "impl_info": impl_info, "ops": self.ops}
         self.wkc_desc = [("ct", "40")]
 
@@ -635,7 +643,7 @@ class Builder:
             self.case["wkc"] = self.new_id()
         self.ops.append(["R", [list(a) for a in addr], list(path), self.case["wkc"], False,
                          [list(x) for x in self.wkc_desc], "wkc"])
-        self._shape_at(addr)["res"].add(tuple(path))
+        self._shape_at(addr)["res"][tuple(path)] = 1
 
     def _shape_at(self, addr):
         s = self.shape
@@ -655,11 +663,11 @@ class Builder:
             attrs, hidden = [], False
         self.ops.append(["R", [list(a) for a in addr], list(path), self.new_id(), hidden,
                          [list(a) for a in attrs], kind])
-        self._shape_at(addr)["res"].add(tuple(path))
+        self._shape_at(addr)["res"][tuple(path)] = 1
 
     def add_site(self, addr, path):
         self.ops.append(["S", [list(a) for a in addr], list(path)])
-        self._shape_at(addr)["sub"][tuple(path)] = {"res": set(), "sub": {}}
+        self._shape_at(addr)["sub"][tuple(path)] = {"res": {}, "sub": {}}
 
     def add_leaf(self, addr, path):
         self.ops.append(["F", [list(a) for a in addr], list(path), self.new_id()])
@@ -671,7 +679,7 @@ class Builder:
         if tuple(path) in s["sub"]:
             del s["sub"][tuple(path)]
         else:
-            s["res"].discard(tuple(path))
+            s["res"].pop(tuple(path), None)
 
     def get(self, path, upa=None, queries=(), entry=None):
         if entry is None:
@@ -848,6 +856,31 @@ def boundary_routing_cases():
     return cases
 
 
+def boundary_upa_cases():
+    """every registered Uri-Path-Abbrev value and its neighbours, with and without a resource at
+    the expanded path, alone and together with a Uri-Path"""
+    cases = []
+    for registered in (False, True):
+        b = Builder(None)
+        b.add_wkc()
+        b.add_site([], [".well-known"])     # never consulted: the exact resource wins
+        if registered:
+            for n, path in ORACLE_UPA.items():
+                if n:
+                    b.add_res([], path, hidden=False, attrs=[], kind="rec")
+        else:
+            b.add_res([[".well-known"]], ["est", "crts"], hidden=False, attrs=[], kind="rec")
+            b.add_leaf([], [".well-known", "brski"])
+        nums = sorted({m for n in ORACLE_UPA for m in (n - 1, n, n + 1) if m >= 0} | {65535, 2 ** 32 - 1})
+        for n in nums:
+            b.get([], upa=n)
+        for n in (0, 1, 5):
+            b.get(["a"], upa=n)
+            b.get([""], upa=n)
+        cases.append(b.case)
+    return cases
+
+
 def boundary_filter_cases(impl_uri):
     pats = ["temp", "light", "temp light", "tem*", "temp*", "temp l*", "*", "", "t", "emp*",
             "light*", "lig", "temp light*", "temp lightx", "TEMP", "t*", "ight*", " *", "temp *",
@@ -928,12 +961,12 @@ def run(env, rep):
             c["impl_info"] = impl_uri
         cases.append(c)
         rep.count("source=corpus")
-    bt = boundary_routing_cases() + boundary_filter_cases(impl_uri)
+    bt = boundary_routing_cases() + boundary_upa_cases() + boundary_filter_cases(impl_uri)
     rep.count("source=boundary", len(bt))
-    rep.exhaustive_parts.append(f"routing boundary table ({len(boundary_routing_cases())} histories) "
+    rep.exhaustive_parts.append(f"routing boundary table ({len(boundary_routing_cases())} histories), Uri-Path-Abbrev table "
                                 "and filter pattern table enumerated in full")
     cases += bt
-    n = env.scale(1200, 30000)
+    n = env.scale(4000, 60000)
     for _ in range(n):
         cases.append(gen_case(rng, impl_uri))
     rep.count("source=random", n)
@@ -957,9 +990,11 @@ def run(env, rep):
         compare(env, rep, kept, lines, impl_outs, what="site history")
     finally:
         loop.close()
-    for need in ("result=H", "result=404", "result=L", "result=KeyError", "result=402"):
+    for need in ("result=H", "result=404", "result=L", "result=KeyError", "result=ok", "result=402",
+                 "hit:leaf-with-remainder", "nesting-depth=3", "filter:prefix", "filter:exact",
+                 "entry=render", "entry=pipe", "upa"):
         if not rep.hist.get(need):
-            rep.notes.append(f"generator produced no {need}")
+            raise HarnessError(f"generators produced no case with {need}")
 
 
 def replay(env, case):
